@@ -276,7 +276,7 @@ fn c06_project(ctx: &mut Ctx, b: &Built, r: &mut StdRng) {
     }
     // 3. option mismatch and source edits, judged by the build run right after
     let srcs = model::sources(&b.case.files);
-    for step in ["flip-trailing", "edit-append-text", "edit-append-empty-directive", "edit-append-failing-directive", "edit-temp-body"] {
+    for step in ["flip-trailing", "edit-append-text", "edit-append-empty-directive", "edit-append-failing-directive", "edit-append-unused-tag", "edit-temp-body"] {
         let mut trailing = b.case.trailing;
         let mut restore: Option<(String, Vec<u8>)> = None;
         match step {
@@ -318,6 +318,9 @@ fn c06_project(ctx: &mut Ctx, b: &Built, r: &mut StdRng) {
                 text.extend_from_slice(match step {
                     "edit-append-text" => &b"appended by the harness"[..],
                     "edit-append-failing-directive" => &b"<!--e TXTPP#include file-that-was-removed-after-the-build.txt"[..],
+                    // a tag that is never used: a build of this source fails now, so the outputs on
+                    // disk are not what a build would write
+                    "edit-append-unused-tag" => &b"<!--e TXTPP#tag NEVERUSED"[..],
                     _ => &b"<!--e TXTPP# appended"[..],
                 });
                 text.extend_from_slice(le);
@@ -699,6 +702,19 @@ fn c07_case(ctx: &mut Ctx, case: &ProjectCase, mlog: &Path, history: &str, r: &m
             }
         }
     }
+    if history == "build-break-clean" && built_ok {
+        // after the successful build a malformed (prefix-less, multi-line capable) directive is put
+        // on top of every source: clean must still remove everything the build generated
+        for s in model::sources(&case.files) {
+            let p = root.join(&s);
+            let old = std::fs::read(&p).unwrap_or_default();
+            let le: &[u8] = if old.windows(2).next().is_some() && model::split(&String::from_utf8_lossy(&old)).1 == "\r\n" { b"\r\n" } else { b"\n" };
+            let mut t = b"TXTPP#run echo inserted-after-the-build".to_vec();
+            t.extend_from_slice(le);
+            t.extend_from_slice(&old);
+            let _ = std::fs::write(&p, t);
+        }
+    }
     let before_clean = snap(&root);
     let mark0 = std::fs::read(mlog).unwrap_or_default();
     let rounds = if history == "build-clean-clean" || history == "clean-only" { 2 } else { 1 };
@@ -728,7 +744,16 @@ fn c07_case(ctx: &mut Ctx, case: &ProjectCase, mlog: &Path, history: &str, r: &m
             ctx.violation("C07:clean-ran-command", format!("a run command executed during clean: marker log grew by {:?}", String::from_utf8_lossy(&mark1[mark0.len().min(mark1.len())..])), cj("marker"));
         }
         let d = diff(&s0, &s);
-        if built_ok || history == "clean-only" {
+        if history == "build-break-clean" && built_ok {
+            // the sources were edited on purpose: only what was generated matters
+            if !d.created.is_empty() || !d.deleted.is_empty() {
+                ctx.violation(
+                    if !d.created.is_empty() { "C07:left-behind" } else { "C07:deleted-non-generated" },
+                    format!("build, then a malformed directive put on top of every source, then clean (round {round}): left behind {:?}, missing {:?}", d.created, d.deleted),
+                    cj("restore"),
+                );
+            }
+        } else if built_ok || history == "clean-only" {
             // exact restoration
             if !d.is_empty() {
                 ctx.violation(
@@ -1052,7 +1077,7 @@ fn run_c07(ctx: &mut Ctx) {
     let logs = ctx.scratch.root.join("logs");
     let _ = std::fs::create_dir_all(&logs);
     let mlog = logs.join("clean.log");
-    let hist = ["build-clean", "build-clean-clean", "clean-only", "build-delete-some-clean"];
+    let hist = ["build-clean", "build-clean-clean", "clean-only", "build-delete-some-clean", "build-break-clean"];
     for i in 0..n {
         if !ctx.time_left() || ctx.violations.len() > 20 {
             break;
@@ -1388,6 +1413,36 @@ fn c08_idempotence(ctx: &mut Ctx, r: &mut StdRng) {
     ctx.scratch.discard(&root);
 }
 
+/// The result depends on the sources and options only, not on what the process happens to have on
+/// its standard input: commands that read stdin (`cat`, `wc -l`, `sort`) see an empty input whether
+/// txtpp was started with /dev/null or with a pipe full of data.
+fn c08_stdin(ctx: &mut Ctx, r: &mut StdRng) {
+    let mut trees: Vec<Files> = vec![];
+    let cmd = ["cat", "wc -l", "sort", "cat; echo done"][r.gen_range(0..4)];
+    for feed in [None, Some(b"line from the terminal\nanother one\n".to_vec())] {
+        let root = ctx.scratch.fresh();
+        let mut files = Files::new();
+        files.insert("s.txt.txtpp".into(), format!("head\n-TXTPP#run {cmd}\ntail\n").into_bytes());
+        materialize(&root, &files, &[]);
+        let o = run_cli(&root, &["-q".to_string(), "-j".to_string(), "2".to_string(), ".".to_string()], &CliOpts { stdin_data: feed, timeout: Some(std::time::Duration::from_secs(30)), ..Default::default() });
+        ctx.evals += 1;
+        ctx.count("cli_runs_with_varied_stdin", 1);
+        if o.timed_out {
+            ctx.violation("C08:depends-on-stdin", format!("`{cmd}` in a run directive: txtpp did not finish within 30 s (the command is waiting for the process's standard input)"), json!({"kind": "stdin"}));
+            ctx.scratch.discard(&root);
+            return;
+        }
+        let mut t = snap(&root).bytes();
+        t.insert("<exit>".into(), format!("{:?}", o.code).into_bytes());
+        trees.push(t);
+        ctx.scratch.discard(&root);
+    }
+    if trees[0] != trees[1] {
+        ctx.violation("C08:depends-on-stdin", format!("the same sources built with /dev/null and with data on standard input give different results (`{cmd}`): {} vs {}", show(trees[0].get("s.txt").map(|x| &x[..]).unwrap_or(b"")), show(trees[1].get("s.txt").map(|x| &x[..]).unwrap_or(b""))), json!({"kind": "stdin"}));
+    }
+    ctx.distinct.insert(crate::util::hash_str(&format!("stdin{cmd}{}", ctx.evals)));
+}
+
 fn run_c08(ctx: &mut Ctx) {
     let mut r = StdRng::seed_from_u64(ctx.shard_seed());
     let n = ctx.tier.pick(8, 300);
@@ -1407,6 +1462,9 @@ fn run_c08(ctx: &mut Ctx) {
         }
         c08_edit_history(ctx, &b, &mut r);
         c08_idempotence(ctx, &mut r);
+        if i % 4 == 1 {
+            c08_stdin(ctx, &mut r);
+        }
         if i == 0 {
             ctx.sample(|| json!({"sources": model::sources(&b.case.files), "generated_paths": b.generated(), "prestate_classes": PRESTATES}));
         }
@@ -1415,6 +1473,13 @@ fn run_c08(ctx: &mut Ctx) {
 }
 
 fn replay_c08(ctx: &mut Ctx, v: &Value) {
+    if v["kind"].as_str() == Some("stdin") {
+        let mut r = StdRng::seed_from_u64(8);
+        for _ in 0..8 {
+            c08_stdin(ctx, &mut r);
+        }
+        return;
+    }
     if v["kind"].as_str() == Some("idempotence") {
         let mut r = StdRng::seed_from_u64(8);
         for _ in 0..24 {
